@@ -901,10 +901,16 @@ func (e *env) runBlock(pending []chain.M, nextDt int64) bool {
 			continue
 		}
 		who := chain.Str(ev, "who")
+		msg := e.msgOf(ev)
 		if _, ok := e.c.Accts[who]; !ok {
-			who = e.users[0] // wrong signer: rejected by the ante handler
+			// the sender is not an account of the universe (e.g. the module service's
+			// provider address): nobody can sign for it.  Reported as rejected without
+			// delivery (a message that fails ValidateBasic), so that no signer's
+			// sequence number is disturbed.
+			who = e.users[0]
+			msg = &servicetypes.MsgPauseRequestContext{RequestContextId: "unsignable", Consumer: e.addrOf(who).String()}
 		}
-		txs = append(txs, chain.Tx{Signer: who, Msgs: []sdk.Msg{e.msgOf(ev)}})
+		txs = append(txs, chain.Tx{Signer: who, Msgs: []sdk.Msg{msg}})
 		e.predict(ev, txs[len(txs)-1], seqs, &created)
 	}
 	dt := e.nextDt
